@@ -23,6 +23,7 @@ STEPFN = ["second", "third", "fourth", "fifth", "sixth", "seventh"]
 
 def shards(tier, seed):
     out = [{"name": "thirty-keys", "kind": "keys", "weight": 2},
+           {"name": "caller-edits-first-answers", "kind": "coldedit", "weight": 1},
            {"name": "integers", "kind": "ints", "weight": 1}]
     ln = 3 if tier == "quick" else 4
     for first in ALPHA:
@@ -133,9 +134,52 @@ def run(shard, ctx):
                           T.key_notes(sig, mode == "minor"), {"key": name, "after": other},
                           T.key_notes(sig, mode == "minor"), got, mechanism="get_notes-interleaved")
             ctx.case(("interleaved", name), n=30)
+        # memo transparency under a caller that edits what it was given (last: a library that hands out its
+        # tables by reference is corrupted from here on)
+        for (name, sig, mode) in T.KEYS:
+            exp = T.key_notes(sig, mode == "minor")
+            for attempt in range(2):
+                st, got = ctx.call(keys.get_notes, name)
+                if st == "ok" and isinstance(got, list):
+                    got.reverse()
+                    got.append("X")
+                    if got:
+                        got[0] = "Q"
+            st, got = ctx.call(keys.get_notes, name)
+            ctx.check("key notes: unchanged after a caller edited a previously returned list", st == "ok" and list(got) == exp,
+                      {"key": name}, exp, got, mechanism="get_notes-after-caller-edit")
+            st, v = ctx.call(intervals.third, exp[0], name)
+            ctx.check("diatonic: unchanged after a caller edited a previously returned key", st == "ok" and v == exp[2], {"key": name},
+                      exp[2], v, mechanism="diatonic-after-caller-edit")
+            st, acc = ctx.call(keys.get_key_signature_accidentals, name)
+            if st == "ok" and isinstance(acc, list):
+                acc.append("X")
+            st, acc = ctx.call(keys.get_key_signature_accidentals, name)
+            ctx.check("signature: unchanged after a caller edited a previously returned list", st == "ok" and
+                      list(acc) == T.key_signature_accidentals(sig), {"key": name}, T.key_signature_accidentals(sig), acc,
+                      mechanism="accidentals-after-caller-edit")
+            ctx.case(("caller-edit", name))
         ctx.note_exhaustive("the 30 keys", 30)
         ctx.sample({"get_notes('eb')": keys.get_notes("eb"), "signature": keys.get_key_signature("eb"),
                     "Key('eb').name": keys.Key("eb").name})
+    elif kind == "coldedit":
+        # the very first answer for each key (cold memo tables) is edited by the caller, then asked again
+        for (name, sig, mode) in T.KEYS:
+            exp = T.key_notes(sig, mode == "minor")
+            st, got = ctx.call(keys.get_notes, name)
+            ok = st == "ok" and list(got) == exp
+            ctx.check("key notes: equal the model key (cold call)", ok, {"key": name}, exp, got, mechanism="get_notes")
+            if st == "ok" and isinstance(got, list):
+                got.reverse()
+                got.append("X")
+            st, got = ctx.call(keys.get_notes, name)
+            ctx.check("key notes: unchanged after a caller edited a previously returned list", st == "ok" and list(got) == exp,
+                      {"key": name, "edited": "the first answer ever given for this key"}, exp, got, mechanism="get_notes-after-caller-edit")
+            st, v = ctx.call(intervals.fifth, exp[0], name)
+            ctx.check("diatonic: unchanged after a caller edited a previously returned key", st == "ok" and v == exp[4], {"key": name},
+                      exp[4], v, mechanism="diatonic-after-caller-edit")
+            ctx.case(("cold-edit", name))
+        ctx.sample({"edit": "reverse + append on the first get_notes('Eb') answer", "then get_notes('Eb')": keys.get_notes("Eb")})
     elif kind == "ints":
         for i in list(range(-40, 41)) + [2 ** k for k in range(6, 40)] + [-2 ** k for k in range(6, 40)]:
             st, v = ctx.call(keys.get_key, i)
